@@ -124,6 +124,21 @@ Theorem C05_errors : forall h decide acts,
     else r_phase r = DoneErr /\ r_far r = FNone.
 Proof. exact resolved_at_quiescence. Qed.
 
+(** End to end: a value is wired and its requests resolve, under an arbitrary schedule, with the far
+    end's decisions as computed by the matching ([decisions w]).  At quiescence, if no connection was
+    lost, the callback of every normally travelling half holds its connected port at both ends, and
+    the callback of every half the far end does not know got an error with nothing left at the far end. *)
+Theorem C05_end_to_end : forall ls ps hops last_sizes qs w,
+  NoDup (map l_cb ls) -> NoDup (ps ++ fake_ids ls) -> Forall hop_ok hops ->
+  wire ls ps hops last_sizes qs = WOk w ->
+  forall acts,
+  let s := run acts (init_sys (S (length hops)) (decisions w)) in
+  quiescent s -> s_dead s = [] ->
+  forall i p cb r, nth_error (w_table w) i = Some (p, cb) -> nth_error (s_reqs s) i = Some r ->
+    ((exists l, In l ls /\ l_cb l = cb /\ l_mode l = MReal) -> r_phase r = DoneOk /\ r_far r = FConn) /\
+    ((exists l, In l ls /\ l_cb l = cb /\ l_mode l = MIgnored) -> r_phase r = DoneErr /\ r_far r = FNone).
+Proof. exact end_to_end. Qed.
+
 (** The canonical schedule of the executable model is one of the schedules quantified over. *)
 Theorem C05_big_step_sound : forall fuel n s, exists acts, drive_all fuel n s = run acts s.
 Proof. exact drive_all_run. Qed.
@@ -206,6 +221,7 @@ Print Assumptions C05_progress.
 Print Assumptions C05_terminates.
 Print Assumptions C05_measure.
 Print Assumptions C05_errors.
+Print Assumptions C05_end_to_end.
 Print Assumptions C05_big_step_sound.
 Print Assumptions C05_interlock_fixed.
 Print Assumptions C05_interlock_fixed_path.
